@@ -554,3 +554,19 @@ def dnf(fn, i, neg=False):
             a, b = b, a
         return frozenset([frozenset([("%s == %s" % (a, b), pol)])])
     return frozenset([frozenset([(canon(fn, i), not neg)])])
+
+
+def reaching_defs(fn, d, node):
+    """definitions (assign-node, rhs, op) of variable d that reach `node` without an intervening re-definition"""
+    cfg = fn.cfg
+    defs = [(a, rhs, op) for a, rhs, op in fn.var_defs(d) if op != "addr"]
+    sites = {a for a, _, _ in defs}
+    out = []
+    tgt = cfg.pt(node)
+    for a, rhs, op in defs:
+        start = cfg.after(a)
+        if start is None:
+            continue
+        if tgt in cfg.reach([start], avoid=lambda e, a=a: e in sites and e != a):
+            out.append((a, rhs, op))
+    return out
